@@ -192,9 +192,10 @@ impl Vm {
           self.runtime_error_from_str(self.builtin.errors.value, "todo no read access")
         }
         ReceiveResult::EmptyBlock(fiber) => {
-          if let Some(waiter) = fiber.or_else(|| self.fiber.get_runnable())  {
+          if let Some(waiter) = fiber {
             self.queue_blocked_fiber(waiter);
           }
+          self.queue_runnable_fibers();
 
           self.fiber.push(val!(channel));
           self.update_ip(-1);
@@ -202,9 +203,10 @@ impl Vm {
           ExecutionSignal::ContextSwitch
         },
         ReceiveResult::Empty(fiber) => {
-          if let Some(waiter) = fiber.or_else(|| self.fiber.get_runnable()) {
+          if let Some(waiter) = fiber {
             self.queue_blocked_fiber(waiter);
           }
+          self.queue_runnable_fibers();
 
           self.fiber.push(val!(channel));
           self.update_ip(-1);
@@ -249,9 +251,10 @@ impl Vm {
         SendResult::FullBlock(fiber) => {
           // if channel has a waiter put into
           // the fiber queue
-          if let Some(waiter) = fiber.or_else(|| self.fiber.get_runnable()) {
+          if let Some(waiter) = fiber {
             self.queue_blocked_fiber(waiter);
           }
+          self.queue_runnable_fibers();
 
           // the channel enqueued the result but is now full so we need to switch
           self.fiber.block();
@@ -260,9 +263,10 @@ impl Vm {
         SendResult::Full(fiber) => {
           // if channel has a waiter put into
           // the fiber queue
-          if let Some(waiter) = fiber.or_else(|| self.fiber.get_runnable()) {
+          if let Some(waiter) = fiber {
             self.queue_blocked_fiber(waiter);
           }
+          self.queue_runnable_fibers();
 
           // replace the channel on the stack and rewind the
           // ip to the beginning of this instruction
